@@ -98,7 +98,8 @@ fn main() {
                 .unwrap_or((0, 1));
             let only: Option<usize> = get("--item").and_then(|s| s.parse().ok());
             let list = args.iter().any(|a| a == "--list");
-            let res = vharness::miri_suite::run(depth, k, n, only, list);
+            let kinds = get("--kinds");
+            let res = vharness::miri_suite::run(depth, k, n, only, list, kinds.as_deref());
             let bad = !res["violations"].as_array().map(|a| a.is_empty()).unwrap_or(true);
             match get("--out") {
                 Some(out) => std::fs::write(&out, serde_json::to_string_pretty(&res).unwrap()).expect("write --out"),
